@@ -425,6 +425,8 @@ pub trait Check: Sync {
     fn technique(&self) -> &'static str {
         "runtime monitor over generated workloads"
     }
+    /// thorough tier only: re-run part of the workload under a sanitizer / interpreter (see sanit.rs)
+    fn sanitizer_steps(&self, _seed: u64, _agg: &mut Agg) {}
 }
 
 // ------------------------------------------------------------------------------------------------
@@ -466,6 +468,11 @@ pub fn run_worker(check: &'static dyn Check, tier: Tier, seed: u64, wi: u64, wn:
     let budget = check.unit_cpu_budget_s();
     let mut unit = wi;
     let mut exit_code = 0;
+    // a sanitizer build re-runs selected units one at a time
+    let single: Option<u64> = std::env::var("VCHECK_SINGLE_UNIT").ok().and_then(|s| s.parse().ok());
+    if let Some(u) = single {
+        unit = u;
+    }
     while unit < units {
         if let Some(s) = skip_through {
             if unit <= s {
@@ -545,6 +552,9 @@ pub fn run_worker(check: &'static dyn Check, tier: Tier, seed: u64, wi: u64, wn:
             }
         }
         unit += wn;
+        if single.is_some() {
+            break;
+        }
     }
     // final report
     let digest_path = dir.join(format!("digests.{}", wi));
@@ -864,6 +874,9 @@ pub fn supervise(check: &'static dyn Check, tier: Tier, seed: u64) -> i32 {
         let _ = std::fs::remove_file(dir.join(format!("digests.{}", wi)));
     }
     let distinct = all.len() as u64;
+    if tier == Tier::Thorough && std::env::var_os("VCHECK_NO_SANITIZERS").is_none() {
+        check.sanitizer_steps(seed, &mut agg);
+    }
     finish(check, tier, seed, agg, distinct, t0.elapsed().as_secs_f64(), false)
 }
 
